@@ -55,6 +55,15 @@ def evaluate(seed_dir, verify=True):
             r = subprocess.run([os.path.join(VERIF, "check"), prop, "quick"], env=env, capture_output=True, text=True)
             buckets = [ln.strip()[8:] for ln in r.stdout.splitlines() if ln.strip().startswith("bucket:")]
             res["checks"][prop] = {"exit": r.returncode, "caught": r.returncode == 1 and "VIOLATION" in r.stdout, "buckets": buckets[:4]}
+            rdir = os.path.join(tmp, "replays", prop)
+            parts = set()
+            if os.path.isdir(rdir):
+                for fn in os.listdir(rdir):
+                    try:
+                        parts.add(json.load(open(os.path.join(rdir, fn)))["part"])
+                    except Exception:
+                        pass
+            res["checks"][prop]["parts"] = sorted(parts)
             if r.returncode == 2:
                 res["checks"][prop]["stderr"] = r.stderr[-800:]
         res["caught_by"] = [p for p, v in res["checks"].items() if v["caught"]]
